@@ -590,6 +590,11 @@ func (c *Ctx) lazyWriterRule() {
 		if pkgOf(fn) != p.Root.Pkg {
 			continue
 		}
+		// a publisher is a consumer of a message writer: a func(io.Writer) handed to a writer provider. A function
+		// that merely keeps its own output writer in a small struct (handleReader's reply writer) is not one.
+		if fn.Signature.Params().Len() != 1 {
+			continue
+		}
 		for _, prm := range fn.Params {
 			if !isNamed(prm.Type(), "io", "Writer") {
 				continue
